@@ -5,6 +5,6 @@ CONSTANTS
   MaxVer = 3
   MaxClock = 2
   TTL = 1
-  MaxOps = 4
+  MaxOps = 3
 INVARIANTS TypeOK CacheCoherent ReturnOk FreshAfterExpiry LockInv
 CHECK_DEADLOCK FALSE
